@@ -768,6 +768,43 @@ func inNonNilBranchOf(fn *ssa.Function, v ssa.Value, at *ssa.BasicBlock) bool {
 			res = true
 		}
 	})
+	if res {
+		return true
+	}
+	// go/ssa does not merge two reads of the same field: `if out.err != nil { return wrap(out.err) }`
+	// tests one load and returns another.  A second load of the same access path inside the
+	// non-nil region of the first, with no store to that path in the region, has the tested value.
+	ld, ok := v.(*ssa.UnOp)
+	if !ok || ld.Op != token.MUL {
+		return false
+	}
+	if _, isField := ld.X.(*ssa.FieldAddr); !isField {
+		return false
+	}
+	path := pathString(ld.X)
+	allInstrs(fn, func(in ssa.Instruction) {
+		l2, ok := in.(*ssa.UnOp)
+		if !ok || l2 == ld || l2.Op != token.MUL || pathString(l2.X) != path {
+			return
+		}
+		nilTests(fn, l2, func(b, nilS, nonNilS *ssa.BasicBlock) {
+			region := edgeRegion(b, nonNilS)
+			if !region[at] {
+				return
+			}
+			stored := false
+			for rb := range region {
+				for _, in2 := range rb.Instrs {
+					if st, ok := in2.(*ssa.Store); ok && pathString(st.Addr) == path {
+						stored = true
+					}
+				}
+			}
+			if !stored {
+				res = true
+			}
+		})
+	})
 	return res
 }
 
